@@ -63,6 +63,7 @@ std::string Plan::to_text() const {
 		auto &k = tasks[t];
 		o << "task kind=" << k.kind << " policy=" << k.policy << " trunc=" << k.trunc << " errat=" << k.errat
 		  << " skipfail=" << k.skipfail << " seekerr=" << k.seekerr << " skippast=" << k.skippast << (k.endless ? " endless=1" : "")
+		  << (k.erronce ? " erronce=1" : "") << (k.errerrno != 5 ? " errerrno=" + std::to_string(k.errerrno) : std::string(""))
 		  << " dir=" << hx(k.dir) << "\n";
 		for (auto &op : k.ops)
 			o << "op " << t << " " << op.kind << " arg=" << op.arg << " name=" << hx(op.name)
@@ -211,6 +212,8 @@ bool Plan::from_text(const std::string &text, Plan &p, std::string &err) {
 			t.seekerr = (int) ki(kv, "seekerr", 0);
 			t.skippast = (int) ki(kv, "skippast", 0);
 			t.endless = (int) ki(kv, "endless", 0);
+			t.erronce = (int) ki(kv, "erronce", 0);
+			t.errerrno = (int) ki(kv, "errerrno", 5);
 			t.dir = kh(kv, "dir");
 			p.tasks.push_back(t);
 		} else if (k == "op") {
